@@ -7,6 +7,7 @@
 -/
 import IbexModel.Expr
 import IbexModel.Bwd
+import IbexModel.Box
 namespace Ibex.HC4
 open Ibex
 
